@@ -21,8 +21,10 @@
     Statements (2), (4) and (4a) hold for EVERY version [sg] of ignoreFields, EVERY
     equality test [eq] and both [pf]. [pg_equal_swapped] (podGroupsEqual with the map
     arguments exchanged) is not a version of the code; it only appears in
-    C18_swapped_comparison_writes_forever / C18_owner_key_removed. The theorems named [_before_repair] keep the
-    history of the three findings machine-checked. *)
+    C18_swapped_comparison_writes_forever / C18_owner_key_removed; [reconcile_early_return] (Reconcile returning
+    before ApplyToCluster for a pod that is already assigned, the seeded change C18-3) is not a version of the
+    code either; it only appears in C18_early_return_depends_on_history / C18_early_return_refuted. The theorems
+    named [_before_repair] keep the history of the three findings machine-checked. *)
 From Coq Require Import List String ZArith.
 From KaiV Require Import Model.Grouper Model.GrouperSpec Proofs.Grouper.
 Import ListNotations.
@@ -380,3 +382,107 @@ Theorem C18_foreign_keys_nonvacuous :
                   /\ foreign_only_key f_annots ex_pg_name last_start_key ex_quiet_events None = Some "2025-06-01T11:00:00Z"%string.
 Proof. exact ex_foreign_keys_nonvacuous. Qed.
 Print Assumptions C18_foreign_keys_nonvacuous.
+
+(** (5) History independence. The PodGroup is a function of the workload, not of what happened before: take ANY
+    history [hs] from any owner objects [cl0] and any state [s0] - reconciles and foreign updates ([HEv]), edits
+    of the owner objects ([HOwners cl']: any new set of owner objects - changed, added, removed labels and
+    annotations, priority class, preemptibility, queue and project labels, topology annotations, other owner
+    references), PodGroups overwritten with arbitrary content, grouper-owned fields included ([HTamper]), PodGroups
+    deleted ([HDelete]) -, then reconcile the pods [ps] (pods that have an owner reference; any order, any
+    repetitions) under the final owner objects. Then every PodGroup that the same reconciles build from the
+    empty store exists, and agrees with it on the grouper-owned part ([owned_agree]: minMember, priority class,
+    preemptibility, sub-groups, topology constraint, owner references - everything but the fields of
+    [foreign_view] -; every label the fresh PodGroup carries other than the queue and node-pool labels; every
+    annotation it carries), and every pod assigned in the fresh run is assigned to the same PodGroup. Labels
+    and annotations are merged, never removed (C18_owner_key_removed), hence the direction. *)
+Theorem C18_history_independent :
+  forall cfg cl0 s0 hs ps,
+    (forall p, In p ps -> p_owners p <> []) ->
+    let cl_final := fst (hrun cfg hs (cl0, s0)) in
+    let s_hist := snd (hrun cfg hs (cl0, s0)) in
+    let hist := run cfg cl_final (map EvReconcile ps) s_hist in
+    let fresh := run cfg cl_final (map EvReconcile ps) empty_state in
+    (forall n gf, get_pg n fresh = Some gf -> exists gh, get_pg n hist = Some gh /\ owned_agree cfg gf gh)
+    /\ (forall k x, get_asg k fresh = Some x -> get_asg k hist = Some x).
+Proof. exact history_independent_run. Qed.
+Print Assumptions C18_history_independent.
+
+(** (5') ... which is: from ANY state whatsoever (the state stands for every history) *)
+Theorem C18_history_independent_any_state :
+  forall cfg cl ps s,
+    (forall p, In p ps -> p_owners p <> []) ->
+    agrees_with_fresh cfg (run cfg cl (map EvReconcile ps) empty_state) (run cfg cl (map EvReconcile ps) s).
+Proof. exact history_independent_any_state. Qed.
+Print Assumptions C18_history_independent_any_state.
+
+(** the same as a statement about a reconciler [rc], for the refutations below *)
+Theorem C18_history_independent_statement_holds : history_independent_statement reconcile.
+Proof. exact history_independent. Qed.
+Print Assumptions C18_history_independent_statement_holds.
+
+(** the comparison the monitor evaluates on the real stores ([owned_agreeb], Model/Grouper.v) is [owned_agree] *)
+Theorem C18_owned_agreeb_spec :
+  forall cfg fresh hist, owned_agreeb cfg fresh hist = true <-> owned_agree cfg fresh hist.
+Proof. exact owned_agreeb_spec. Qed.
+Print Assumptions C18_owned_agreeb_spec.
+
+(** (5'') in particular: after the reconciles the PodGroup of every reconciled pod exists - a deleted one is back *)
+Theorem C18_podgroup_restored :
+  forall cfg cl ps s p a m,
+    In p ps -> p_owners p <> [] -> full_md cfg cl p a = Some m ->
+    get_pg (m_name m) (run cfg cl (map EvReconcile ps) s) <> None.
+Proof. exact podgroup_restored. Qed.
+Print Assumptions C18_podgroup_restored.
+
+(** What the call of ApplyToCluster for an already assigned pod is for. [reconcile_early_return] is NOT the code:
+    it returns before ApplyToCluster when the pod carries the expected pod-group annotation (seeded change
+    C18-3). StatefulSet web, pods web-0 and web-1 reconciled once; then (a) the owner gets a priority class, a
+    preemptibility, a label and a topology constraint, (b) minMember / priorityClassName / owner references /
+    a computed annotation of the PodGroup are overwritten, (c) the PodGroup is deleted; then every pod is
+    reconciled twice. The code as it is ends with the PodGroup of the fresh run in all three; the early return
+    keeps priority class train / minMember 7, priority class build, no owner reference / no PodGroup at all
+    while both pods stay assigned to it. *)
+Theorem C18_early_return_depends_on_history :
+  ex_pg_fields (ex_fresh_end reconcile ex_hist_edit) = Some (1%Z, "inference", "non-preemptible", "topo-1", [ex_sts_ref])%string
+  /\ ex_pg_fields (ex_hist_end reconcile ex_hist_edit) = Some (1%Z, "inference", "non-preemptible", "topo-1", [ex_sts_ref])%string
+  /\ ex_agrees reconcile ex_hist_edit = true
+  /\ ex_pg_fields (ex_fresh_end reconcile_early_return ex_hist_edit) = Some (1%Z, "inference", "non-preemptible", "topo-1", [ex_sts_ref])%string
+  /\ ex_pg_fields (ex_hist_end reconcile_early_return ex_hist_edit) = Some (1%Z, "train", "", "", [ex_sts_ref])%string
+  /\ ex_agrees reconcile_early_return ex_hist_edit = false
+  /\ ex_pg_fields (ex_hist_end reconcile ex_hist_tamper) = Some (1%Z, "train", "", "", [ex_sts_ref])%string
+  /\ ex_agrees reconcile ex_hist_tamper = true
+  /\ ex_pg_fields (ex_hist_end reconcile_early_return ex_hist_tamper) = Some (7%Z, "build", "", "", [])%string
+  /\ ex_agrees reconcile_early_return ex_hist_tamper = false
+  /\ ex_agrees reconcile ex_hist_delete = true
+  /\ get_pg ex_pg_name (ex_hist_end reconcile_early_return ex_hist_delete) = None
+  /\ get_asg "web-0" (ex_hist_end reconcile_early_return ex_hist_delete) = Some ex_pg_name
+  /\ get_pg ex_pg_name (ex_fresh_end reconcile_early_return ex_hist_delete) <> None.
+Proof. exact early_return_depends_on_history. Qed.
+Print Assumptions C18_early_return_depends_on_history.
+
+Theorem C18_early_return_refuted : ~ history_independent_statement reconcile_early_return.
+Proof. exact early_return_refuted. Qed.
+Print Assumptions C18_early_return_refuted.
+
+(** The hypothesis of (5) - the pods have an owner reference - is needed by the code as it is. The statement
+    without it: *)
+Definition C18_history_independent_unrestricted : Prop := history_independent_unrestricted reconcile.
+
+(** ... is REFUTED: a pod without owner reference is skipped as soon as it carries a pod-group annotation
+    (isOrphanPodWithPodGroup), the annotation the grouper wrote itself included. Pod solo, no owner, empty store:
+    its first reconcile creates pg-solo-u-solo and assigns the pod; the PodGroup is deleted; no later reconcile
+    brings it back, the pod stays assigned to a PodGroup that does not exist. (5) is the partial statement. *)
+Theorem C18_history_independent_unrestricted_refuted : ~ C18_history_independent_unrestricted.
+Proof. exact history_independent_unrestricted_refuted. Qed.
+Print Assumptions C18_history_independent_unrestricted_refuted.
+
+Theorem C18_ownerless_pod_frozen :
+  let cs := hrun ex_cfg ex_bare_hist ([], empty_state) in
+  let hist := run ex_cfg [] (map EvReconcile [ex_bare; ex_bare]) (snd cs) in
+  let fresh := run ex_cfg [] (map EvReconcile [ex_bare; ex_bare]) empty_state in
+  get_pg ex_bare_pg (snd (hrun ex_cfg [HEv (EvReconcile ex_bare)] ([], empty_state))) <> None
+  /\ get_pg ex_bare_pg fresh <> None
+  /\ get_pg ex_bare_pg hist = None
+  /\ get_asg "solo" hist = Some ex_bare_pg.
+Proof. exact ownerless_pod_frozen. Qed.
+Print Assumptions C18_ownerless_pod_frozen.
